@@ -217,7 +217,8 @@ def _spec_sim(method, x, y, Vk=None, n_sub=None):
 def _tol(method, sigma_kind='none'):
     if method in ('bures', 'bures_metric'):
         return 1e-6          # matrix square roots of rank-deficient Gram matrices
-    if method in ('cosine_cov', 'corr_cov') and sigma_kind == 'matrix':
+    if method in ('cosine_cov', 'corr_cov') and sigma_kind in ('matrix', 'vector', 'vector-nonconstant', 'vector-constant') or \
+            (method in ('cosine_cov', 'corr_cov') and str(sigma_kind).startswith('vector')):
         return 1e-4          # the real code solves V x = b by conjugate gradients with rtol 1e-5 (seen: 8e-6)
     return 1e-9
 
